@@ -34,14 +34,14 @@ import (
 func init() {
 	register("conv", convDomain)
 	registerOp("plmn2nas", func(a []string) string {
-		return "ok " + hx(nasConvert.PlmnIDToNas(models.PlmnId{Mcc: string(aHex(a[0])), Mnc: string(aHex(a[1]))}))
+		return okKeep(nasConvert.PlmnIDToNas(models.PlmnId{Mcc: string(aHex(a[0])), Mnc: string(aHex(a[1]))}))
 	})
 	registerOp("snssai", func(a []string) string {
 		v := aI64(a[0])
 		if v < -(1<<31) || v >= 1<<31 {
 			panic(badArg{})
 		}
-		return "ok " + hx(nasConvert.SnssaiToNas(models.Snssai{Sst: int32(v), Sd: string(aHex(a[1]))}))
+		return okKeep(nasConvert.SnssaiToNas(models.Snssai{Sst: int32(v), Sd: string(aHex(a[1]))}))
 	})
 	registerOp("amfid", func(a []string) string {
 		r, s, p := nasConvert.AmfIdToNas(string(aHex(a[0])))
@@ -55,7 +55,7 @@ func init() {
 		return amfidRange(lo, hi)
 	})
 	registerOp("pcomar", func(a []string) string {
-		return "ok " + hx(parseUnits(a[0]).Marshal())
+		return okKeep(parseUnits(a[0]).Marshal())
 	})
 	registerOp("pcounm", func(a []string) string {
 		p := nasConvert.NewProtocolConfigurationOptions()
